@@ -1156,7 +1156,7 @@ theorem step_pw (e : Engine) (ev : Event) (hinv : Inv2 e) (hcap : ev.capOk) (h :
   obtain ⟨hi, hx⟩ := hinv
   have hb : ∀ t, Inv (e.begin t) := fun t => by
     obtain ⟨hok, hbig, hD, hS⟩ := hi
-    exact ⟨⟨hok.sorted, hok.ids, hok.userKind, hok.wc, hok.slow⟩, hbig, hD, hS⟩
+    exact ⟨⟨hok.sorted, hok.ids, hok.userKind, hok.wc, hok.slow, hok.to⟩, hbig, hD, hS⟩
   have hbx : ∀ t, Extra false [] (e.begin t).view := fun t => hx
   have hbp : ∀ t, PW (e.begin t) := fun t => ⟨h.1, h.2⟩
   have hf : ∀ (en : Engine) (r : Res), PW en → PW (en.finish r).1 := fun en r hh => ⟨hh.1, hh.2⟩
